@@ -24,6 +24,7 @@ func init() {
 }
 
 func runC18(p *load.Program, r *oblig.Report) {
+	c18AnyHandshakeError(p, r, "C18.R8 every error code of a handshake or authentication response fails the step")
 	c18Dialer(p, r)
 	c18Transport(p, r)
 	c18AllowedRequests(p, r)
